@@ -61,6 +61,13 @@ func crosstalk(c *rig.Ctx) {
 			if r.Chance(1, 4) {
 				// the victim's own registers that have nothing to do with its frequency: duty and
 				// length data, envelope (DAC staying on), output level
+				if r.Chance(1, 3) {
+					// the power register stored again with the power bit set: the sound hardware
+					// is on already, nothing starts over
+					m.Mem.Write(0xff26, 0x80|r.U8()&0x7f)
+					c.Count("crosstalk_neutral_stores_to_the_victim", 1)
+					return
+				}
 				switch victim {
 				case 0:
 					m.Mem.Write(r.Pick16([]uint16{0xff11, 0xff12}), 0xf0|r.U8()&0x07|r.U8()&0xc0)
